@@ -218,6 +218,7 @@ type vrec struct {
 	violKeys     map[string]int
 	inconclusive []string
 	notes        map[string]any
+	alsoOwn      []string // monitors of these properties also decide this one (its statement includes them)
 }
 
 func newRec(t testing.TB, prop string) *vrec {
@@ -302,6 +303,12 @@ func (r *vrec) note(k string, v any) {
 // violation records a property violation. Only the first few of each key keep
 // their full detail.
 func (r *vrec) violation(key, detail string, desc any) {
+	for _, a := range r.alsoOwn {
+		if strings.HasPrefix(key, a+" ") {
+			key = r.prop + " [" + key + "]"
+			break
+		}
+	}
 	if !strings.HasPrefix(key, r.prop+" ") {
 		// an always-on monitor of another property fired: that property's own
 		// check reports it; here it is only counted
